@@ -62,6 +62,19 @@ theorem C11_port (d : Bytes) (e : Entry) (h : entryOf F T B cfg R d = some e) :
       · left; rfl
     · cases h
 
+/-- the name is the one the client was configured with for the controller that answered ("-" stands for
+    none / empty), a function of the configuration and of the serial number in the reply alone -/
+theorem C11_name (d : Bytes) (e : Entry) (r : List Val) (n : Nat) (hl : d.length = 64)
+    (hr : unmarshal F T B R d = .ok r) (hs : r.getD 1 .none_ = .u32 n) (h : entryOf F T B cfg R d = some e) :
+    e.name = (match cfg.controllers.find? (·.serial == n) with
+      | some c => if c.name = "" then "-" else c.name
+      | none => "-") := by
+  simp [entryOf, hl, hr] at h
+  subst h
+  have hs' : r[1]?.getD Val.none_ = .u32 n := by simpa using hs
+  simp [hs']
+  cases List.find? (fun x => x.serial == n) cfg.controllers <;> rfl
+
 /-- the number of entries never exceeds the number of datagrams received (nothing is invented) -/
 theorem C11_no_more_than_received (ds : List Bytes) : (discover F T B cfg R ds).length ≤ ds.length := by
   simp [discover]; exact List.length_filterMap_le _ _
